@@ -166,7 +166,18 @@ class P(core.Prop):
                         lines.append(k + '=' + self._val(rng))
                     else:
                         lines.append(self._val(rng))
-                out.append({'kind': 'getinfo', 'kvs': [[k, ['multi', lines]]], 'cut': cut})
+                if rng.random() < 0.25:
+                    # a line that is literally a requested key (no '='), as in GETINFO info/names
+                    lines.insert(rng.randrange(len(lines) + 1), k)
+                kvs = [[k, ['multi', lines]]]
+                if rng.random() < 0.35:
+                    # several keys in one request, the data block first, last or in the middle
+                    others = [x for x in rng.sample(keys, 3) if x != k][:rng.choice([1, 2])]
+                    kvs = [[o, ['single', self._val(rng)]] for o in others]
+                    kvs.insert(rng.randrange(len(kvs) + 1), [k, ['multi', lines]])
+                    if rng.random() < 0.3:
+                        lines.append(others[0])
+                out.append({'kind': 'getinfo', 'kvs': kvs, 'cut': cut})
             else:
                 k = rng.choice(['SocksPort', 'Log', 'ContactInfo', 'ORPort'])
                 m = rng.choice(['unset', 'empty', 'one', 'many'])
@@ -203,7 +214,9 @@ class P(core.Prop):
     finding_preds = {
         'value_quote_wrapped': lambda c, o: any(quote_wrapped(v) for v in single_values(c)),
         'data_line_oklike': lambda c, o: any(l.strip() == 'OK' for k, ls in multi(c) for l in ls),
-        'data_line_is_own_key': lambda c, o: any(('=' in l and l.split('=', 1)[0] == k) for k, ls in multi(c) for l in ls),
+        # ... or the name of another key of the same request (the same key_hints test of parse_keywords)
+        'data_line_is_own_key': lambda c, o: any(('=' in l and l.split('=', 1)[0] in [kk for kk, _ in c['kvs']])
+                                                 for k, ls in multi(c) for l in ls),
     }
 
 
